@@ -201,7 +201,7 @@ def work_git(bins, seed, idx, tmp):
             repo.checkout(rng.choice(names))
             if rng.random() < 0.5:
                 repo.commit()
-            dirt = rng.choice(["clean", "modified", "untracked"])
+            dirt = rng.choice(["clean", "modified", "untracked", "unmerged", "staged_new"])
             repo.make_dirty(dirt)
             for _ in range(3):
                 c = gen_case(rng)
